@@ -19,6 +19,8 @@ import (
 //	op 3  dispatch: NormalDist{A,B} (kind 0) / DeltaDist{A} (kind 1): stats.InvCDF(d)(y) next to d.InvCDF(y),
 //	      stats.Rand(d)(r) next to d.Rand(r') for equally seeded sources (Seeds)
 //	op 4  stats.Rand of a c07PW with a scripted rand.Source (Src = the Int63 values it emits)
+//	op 5  supporting evidence: Kolmogorov-Smirnov distance of N draws of stats.Rand(c07PW) from
+//	      rand.New(rand.NewSource(Seeds[0])) to the distribution's own CDF
 type c07Knot struct {
 	X F64 `json:"x"` // break point
 	L F64 `json:"l"` // left limit of the cdf at X
@@ -265,6 +267,44 @@ func c07Run(raw []byte) (*Line, error) {
 		}
 		ist, inv := c07Call(stats.InvCDF(d), y) // a separate closure, a separate call
 		l.I(st).I(src.pos).F(y).F(draw).I(ist).F(inv)
+	case 5:
+		d, err := c07MakePW(&c)
+		if err != nil {
+			return nil, err
+		}
+		if c.N < 1 || c.N > 2000000 || len(c.Seeds) != 1 {
+			return nil, fmt.Errorf("bad draw count / seed")
+		}
+		l.c07PW(d)
+		var ks float64
+		pan, _ := catch(func() {
+			r := rand.New(rand.NewSource(c.Seeds[0]))
+			gen := stats.Rand(d)
+			xs := make([]float64, c.N)
+			for i := range xs {
+				xs[i] = gen(r)
+			}
+			sort.Float64s(xs)
+			n := float64(c.N)
+			for i := 0; i < len(xs); {
+				j := i
+				for j < len(xs) && xs[j] == xs[i] {
+					j++
+				}
+				// i draws are < xs[i], j draws are <= xs[i]
+				ks = math.Max(ks, math.Abs(float64(j)/n-d.CDF(xs[i])))
+				ks = math.Max(ks, math.Abs(float64(i)/n-d.CDF(math.Nextafter(xs[i], math.Inf(-1)))))
+				i = j
+			}
+			if math.IsNaN(xs[0]) || math.IsNaN(xs[len(xs)-1]) {
+				ks = math.NaN()
+			}
+		})
+		st := 0
+		if pan {
+			st = 2
+		}
+		l.I(c.N).I(st).F(ks)
 	default:
 		return nil, fmt.Errorf("bad op")
 	}
@@ -554,8 +594,18 @@ func c07Gen(tier string, rng *rand.Rand, emit func(interface{})) {
 		}
 		emit(c07Case{Op: 4, Knots: knots, Bl: F64(bl), Bh: F64(bh), Src: src})
 	}
+	// (e) supporting evidence: Kolmogorov-Smirnov distance of seeded draws
+	nks, draws := 12, 50000
+	if tier == "thorough" {
+		nks, draws = 40, 1000000
+	}
+	for i := 0; i < nks; i++ {
+		knots, step := c07GenPW(rng)
+		bl, bh := c07GenBounds(rng, knots, step)
+		emit(c07Case{Op: 5, Knots: knots, Bl: F64(bl), Bh: F64(bh), N: draws, Seeds: []int64{rng.Int63()}})
+	}
 }
 
 func init() {
-	register(&Prop{ID: "C07", Num: 7, Gen: c07Gen, Run: c07Run, Timeout: 5 * time.Second})
+	register(&Prop{ID: "C07", Num: 7, Gen: c07Gen, Run: c07Run, Timeout: 10 * time.Second})
 }
